@@ -19,7 +19,7 @@
 
      c17_confined_*_partial   every primitive that scan / transition (remove,
         create, swap, staged-file moves, cross-device copies) / Opener.OpenFile
-        (rsync base and supply opens) / stageFromRoot can issue, against EVERY
+        (rsync base opens) / rsync.Transmit (supply) / stageFromRoot can issue, against EVERY
         answer function of the outside world (any filesystem, hostile ones
         included), is either (handle, one valid name) with the handle obtained
         from the root by single-name O_NOFOLLOW opens, or one of the
@@ -71,6 +71,13 @@ Theorem c17_confined_opener_partial :
   forall (root staging : string), valid_name (root_base root) = true ->
   forall o paths, opener_ok root o -> confined root staging (opener_open_files root o paths).
 Proof. exact confined_opener. Qed.
+
+(* rsync.Transmit / Endpoint.Supply: every requested path costs exactly one
+   Opener.OpenFile and nothing else is opened when it fails *)
+Theorem c17_confined_transmit_partial :
+  forall (root staging : string), valid_name (root_base root) = true ->
+  forall paths, confined root staging (transmit root paths).
+Proof. exact confined_transmit. Qed.
 
 Theorem c17_confined_stage_partial :
   forall (root staging : string), valid_name (root_base root) = true ->
@@ -224,6 +231,7 @@ Print Assumptions c17_confined_scan_partial.
 Print Assumptions c17_confined_transition_partial.
 Print Assumptions c17_confined_walk_partial.
 Print Assumptions c17_confined_opener_partial.
+Print Assumptions c17_confined_transmit_partial.
 Print Assumptions c17_confined_stage_partial.
 Print Assumptions c17_confined_trace.
 Print Assumptions c17_handle_location_partial.
